@@ -1112,34 +1112,63 @@ func endsWithEndMarkerAfterEntries(b []byte) bool {
 
 // ---------- archlinux ----------
 
+// parseMtree reads the text by the rules of mtree(5): lines of blank-separated words, the first the path, the others
+// keyword=value; a backslash and three octal digits stand for one byte in a path or link target. A word that is not
+// keyword=value with a known keyword (a piece of a name that was split at a blank, say) makes the file malformed.
 func parseMtree(b []byte) ([]mtreeLine, bool) {
 	lines := strings.Split(strings.TrimRight(string(b), "\n"), "\n")
 	if len(lines) == 0 || lines[0] != "#mtree" {
 		return nil, false
 	}
+	ok := true
 	var out []mtreeLine
 	for _, l := range lines[1:] {
 		f := strings.Split(l, " ")
-		m := mtreeLine{Path: f[0], KV: map[string]string{}}
-		// the path may contain spaces: keys start at the first field containing '=' that is a known key
-		i := 1
-		for i < len(f) && !isMtreeKey(f[i]) {
-			m.Path += " " + f[i]
-			i++
-		}
-		for ; i < len(f); i++ {
-			if j := strings.Index(f[i], "="); j > 0 {
-				m.KV[f[i][:j]] = f[i][j+1:]
+		p, pok := mtreeUnquote(f[0])
+		ok = ok && pok
+		m := mtreeLine{Path: p, KV: map[string]string{}}
+		for _, w := range f[1:] {
+			j := strings.Index(w, "=")
+			if j <= 0 || !isMtreeKey(w[:j+1]) {
+				ok = false
+				continue
 			}
+			v := w[j+1:]
+			if w[:j] == "link" {
+				var vok bool
+				v, vok = mtreeUnquote(v)
+				ok = ok && vok
+			}
+			m.KV[w[:j]] = v
 		}
 		out = append(out, m)
 	}
-	return out, true
+	return out, ok
+}
+
+func mtreeUnquote(s string) (string, bool) {
+	var b strings.Builder
+	for i := 0; i < len(s); i++ {
+		if s[i] != '\\' {
+			b.WriteByte(s[i])
+			continue
+		}
+		if i+3 >= len(s) {
+			return b.String(), false
+		}
+		v, err := strconv.ParseUint(s[i+1:i+4], 8, 8)
+		if err != nil {
+			return b.String(), false
+		}
+		b.WriteByte(byte(v))
+		i += 3
+	}
+	return b.String(), true
 }
 
 func isMtreeKey(s string) bool {
 	for _, k := range []string{"time=", "mode=", "size=", "type=", "md5digest=", "sha256digest=", "link="} {
-		if strings.HasPrefix(s, k) {
+		if s == k {
 			return true
 		}
 	}
@@ -1182,7 +1211,7 @@ func decodeArch(b []byte) (*pkgObs, error) {
 				return o, fmt.Errorf(".MTREE gzip: %w", err)
 			}
 			lines, ok := parseMtree(mt)
-			o.Struct["mtree_header"] = ok
+			o.Struct["mtree_header_and_every_word_wellformed"] = ok
 			o.Mtree = lines
 			o.Raw["mtree"] = mt
 		case ".INSTALL":
